@@ -198,6 +198,17 @@ CACHE = os.path.join(WORK, "cache")
 STAT_RE = re.compile(r"(\d+) states generated, (\d+) distinct states found")
 
 
+def resolve(name, emit=False):
+    """model name -> (module file, cfg file, replay targets)"""
+    if name.startswith("own"):
+        base, mod, targets = "OwnershipMC" + name[3:], "OwnershipMC.tla", ["staking", "treasury"]
+    elif name.startswith("treasury_"):
+        base, mod, targets = "TreasuryMC_" + name[len("treasury_"):], "TreasuryMC.tla", ["treasury"]
+    else:
+        base, mod, targets = "MC_" + name, "MilkyWay.tla", ["staking"]
+    return os.path.join(SPEC, mod), os.path.join(MC_DIR, base + ("_emit" if emit else "") + ".cfg"), targets
+
+
 def spec_hash(cfg):
     import hashlib
     h = hashlib.sha256()
@@ -209,14 +220,14 @@ def spec_hash(cfg):
 
 
 def model_check(name, workdir, workers=12, timeout=1500):
-    cfg = os.path.join(MC_DIR, f"MC_{name}.cfg")
-    rc, out, wall = tlc(os.path.join(SPEC, "MilkyWay.tla"), cfg, workdir, workers=workers, timeout=timeout, xmx="12g")
+    mod, cfg, _ = resolve(name)
+    rc, out, wall = tlc(mod, cfg, workdir, workers=workers, timeout=timeout, xmx="12g")
     m = STAT_RE.search(out)
     if "Model checking completed. No error has been found." not in out or not m:
         bad = re.search(r"Invariant (\S+) is violated|Action property (\S+) is violated", out)
         raise ToolError(f"model MC_{name}: the SPECIFICATION itself does not satisfy "
                         f"{bad.group(0) if bad else 'its properties / did not finish'} - this is a defect of the model, not of the code\n" + out[-2500:])
-    log(f"[mc] MC_{name}: {m.group(2)} distinct states, {m.group(1)} transitions, all invariants and action properties hold ({wall:.1f}s)")
+    log(f"[mc] {name}: {m.group(2)} distinct states, {m.group(1)} transitions, all invariants and action properties hold ({wall:.1f}s)")
     return {"model": f"MC_{name}", "states": int(m.group(2)), "transitions": int(m.group(1)), "wall_s": round(wall, 1)}
 
 
@@ -233,7 +244,7 @@ def reach_check(name, workdir):
 def edges_for(name, workdir, timeout=3000):
     """TLC-generated tests of MC_<name>: one EDGE line per transition. A pure function of the specification,
     hence cached under work/cache keyed by the hash of spec/*.tla and the cfg."""
-    cfg = os.path.join(MC_DIR, f"MC_{name}_emit.cfg")
+    mod, cfg, _ = resolve(name, emit=True)
     os.makedirs(CACHE, exist_ok=True)
     path = os.path.join(CACHE, f"{name}-{spec_hash(cfg)}.edges")
     if os.path.exists(path) and os.path.getsize(path) > 0:
@@ -247,7 +258,7 @@ def edges_for(name, workdir, timeout=3000):
     with open(tmp, "w") as f:
         try:
             p = subprocess.run(["tlc", "-workers", "1", "-metadir", md, "-cleanup", "-noGenerateSpecTE", "-config", cfg,
-                                os.path.join(SPEC, "MilkyWay.tla")], cwd=workdir, env=e, stdout=f, stderr=subprocess.STDOUT, timeout=timeout)
+                                mod], cwd=workdir, env=e, stdout=f, stderr=subprocess.STDOUT, timeout=timeout)
         except subprocess.TimeoutExpired:
             raise ToolError(f"timeout generating tests from MC_{name}")
     shutil.rmtree(md, ignore_errors=True)
@@ -260,22 +271,26 @@ def edges_for(name, workdir, timeout=3000):
 
 
 def replay_edges(binp, name, workdir, sample_lines_target, seed):
+    """returns [(trace path, stats)] - one per replay target (the ownership machine runs against both contracts)"""
     path, _ = edges_for(name, workdir)
     nedges = int(subprocess.run(["grep", "-c", "^\"EDGE ", path], stdout=subprocess.PIPE, text=True).stdout.strip() or 0)
     if nedges == 0:
         raise ToolError(f"no tests in {path}")
     sample_mod = max(1, nedges // max(1, sample_lines_target))
-    out = os.path.join(workdir, f"tree-{name}.ndjson")
-    t0 = time.time()
-    txt = mwh(binp, ["tree", path, out, sample_mod, seed], timeout=3000)
-    st = json.loads(txt.strip().splitlines()[-1])
-    st["model"] = f"MC_{name}"
-    st["wall_s"] = round(time.time() - t0, 1)
-    if st["executed"] != nedges:
-        raise ToolError(f"replay executed {st['executed']} of {nedges} transitions of MC_{name}")
-    log(f"[replay] MC_{name}: {nedges} TLC-generated transitions executed on the real code in {st['wall_s']}s, "
-        f"{st['mismatches']} digest mismatches, {st['lines']} lines kept for validation")
-    return out, st
+    res = []
+    for target in resolve(name)[2]:
+        out = os.path.join(workdir, f"tree-{name}-{target}.ndjson")
+        t0 = time.time()
+        txt = mwh(binp, ["tree", path, out, sample_mod, seed, target], timeout=3000)
+        st = json.loads(txt.strip().splitlines()[-1])
+        st["model"] = f"{name}@{target}"
+        st["wall_s"] = round(time.time() - t0, 1)
+        if st["executed"] != nedges:
+            raise ToolError(f"replay executed {st['executed']} of {nedges} transitions of {name}")
+        log(f"[replay] {name}@{target}: {nedges} TLC-generated transitions executed on the real code in {st['wall_s']}s, "
+            f"{st['mismatches']} digest mismatches, {st['lines']} lines kept for validation")
+        res.append((out, st))
+    return res
 
 
 # ---------------------------------------------------------------------------------------------
@@ -302,6 +317,8 @@ PLANS = {
     "C08": plan(["gate_q"], ["gate_t"], ["gate_q"], ["gate_t"], W_Q, W_T),
     "C10": plan(["gate_q"], ["gate_t"], ["gate_q"], ["gate_t"], W_Q, W_T),
     "C11": plan(["flow_q", "flow_treasury_q"], ["flow_t", "flow_treasury_t"], ["flow_treasury_q"], ["flow_t", "flow_treasury_t"], W_Q, W_T),
+    "C12": plan(["own"], ["own_t"], ["own"], ["own_t"], [("admin", 10, 60)], [("admin", 150, 70)]),
+    "C13": plan(["treasury_q"], ["treasury_t"], ["treasury_q"], ["treasury_t"], [], []),
     "C15": plan(["flow_q", "flow_treasury_q"], ["flow_t", "flow_treasury_t"], ["flow_q", "flow_treasury_q"], ["flow_t", "flow_treasury_t"], W_Q, W_T),
 }
 LEVEL = "model_checking"
@@ -325,9 +342,9 @@ def run_property(prop, tier, seed):
     traces = []
     replays = []
     for n in pl["emit"][tier]:
-        out, st = replay_edges(binp, n, wd, 1500 if tier == "quick" else 20000, seed)
-        traces.append((out, f"tree-{n}"))
-        replays.append(st)
+        for out, st in replay_edges(binp, n, wd, 1500 if tier == "quick" else 20000, seed):
+            traces.append((out, "tree-" + st["model"].replace("@", "-")))
+            replays.append(st)
     # 3. drivers on the real code
     nruns = 0
     for mode, runs, steps in pl["walks"][tier]:
